@@ -18,7 +18,10 @@ def payload(n, k, rng):
 def scenario(args):
     mode, pipe, btype, seed, lens, tx_lite, rx_lite = args
     rng = random.Random(seed)
-    cfg = dict(dyn=(mode == "dyn"), pl=(mode if mode != "dyn" else 32), pipe=pipe, aw=rng.choice([3, 4, 5]),
+    mixed = isinstance(mode, str) and mode.startswith("mixed")     # static lengths first, then ack = True: pipe 0 is dynamic
+    if mixed:
+        mode = int(mode[5:])
+    cfg = dict(dyn=(mode == "dyn"), pl=(mode if mode != "dyn" else 32), pipe=pipe, ackpl=mixed, aw=rng.choice([3, 4, 5]),
                rate=rng.choice([1, 2, 250]), crc=rng.choice([0, 1, 2]), ch=rng.randrange(126), arc=rng.choice([0, 3, 15]),
                ard=rng.choice([250, 1500, 4000]))
     lp = link.LinkPair(cfg, tx_lite=tx_lite, rx_lite=rx_lite, tx_spidev=rng.random() < 0.5, rx_spidev=rng.random() < 0.5,
@@ -43,6 +46,16 @@ def scenario(args):
             bufs.append(bytearray(raw) if btype == "bytearray" else raw)
         ev.append(lp.call("send", bufs if rng.random() < 0.5 else tuple(bufs)))
         ev.append(lp.drain())
+    # streaming idiom: 1..5 payloads queued with write(write_only=True) before CE goes high (the TX FIFO holds 3)
+    if not tx_lite:
+        for m in rng.sample([1, 2, 3, 4, 5], 2):
+            bufs = []
+            for n_ in rng.sample(range(1, 33), m):
+                k += 1
+                raw = payload(n_, k, rng)
+                bufs.append(bytearray(raw) if btype == "bytearray" else raw)
+            ev.append(lp.stream(bufs, ask_no_ack=rng.random() < 0.3))
+            ev.append(lp.drain())
     return dict(cfg=lp.tla_cfg(), ev=ev, meta=dict(mode=mode, pipe=pipe, btype=btype, seed=seed, cfg=cfg))
 
 
@@ -60,6 +73,10 @@ def jobs_for(chk, tx_lite=False, rx_lite=False):
             for bt in ("bytes", "bytearray"):
                 out.append((mode, pipe, bt, hash((chk.seed, str(mode), pipe, bt, tx_lite, rx_lite)) & 0x7FFFFFFF, lens,
                             tx_lite, rx_lite))
+    if not tx_lite and not rx_lite:
+        for pl in ([5, 32] if quick else [1, 5, 16, 31, 32]):
+            for bt in ("bytes", "bytearray"):
+                out.append(("mixed%d" % pl, 0, bt, hash((chk.seed, "mixed", pl, bt)) & 0x7FFFFFFF, lens, False, False))
     return out
 
 
